@@ -73,6 +73,7 @@ def reopen_cfgs():
     c.append(dict(H4, NK=1, FSBS=16, OFFQ=1, FOLLOWUP_SAVED=None, _unwindset=uw(1, FU)))
     for dmg in (1, 2, 3, 4, 5, 6):
         c.append(dict(H4, NK=1, FSBS=16, DAMAGE=dmg, _unwindset=uw(1)))
+    c.append(dict(H4, NK=1, FSBS=16, DAMAGE=7, _unwindset=uw(1), _tier="thorough"))
     # candidates for genuine defects, each isolated in its own queries:
     # (a) fs offset >= one undo block: map rebuilt fs-relative, tested absolute
     c.append(dict(H4, NK=1, FSBS=16, OFFQ=2, FOLLOWUP_SAVED=None, _unwindset=uw(1, FU)))
